@@ -231,6 +231,11 @@ def check_cfg(ctx, fx, cfg):
         c_, p_, a = ka[0]
         ctx.viol("R05.10", "closure-holder:%s@%s" % (d, cfg), "a closure / future outside the closed list owns a strong handle (while it exists the actor cannot see its last handle dropped): %s via %s" % (a["ty"][:70], a["paths"][0][:100]), fn=d, site=(fx.fn(d) or {}).get("loc"))
     ctx.ok("R05.10", "closure-holders@" + cfg, "crate", {"closed_list": len(CLOSURE_HOLDERS)})
+    # R05.13 (shared with C08) the service registry, a strong holder, lets go of a registered service only when told to
+    # (replace / unregister) or after it found the entry stopped under the same lock
+    if cfg != "bare":
+        from props import c08 as _c08
+        _c08.check_no_live_eviction(ctx, fx, cfg, "R05.13")
     # R05.7 closed mailbox -> graceful exit
     res57 = run_loops(ctx, fx, "R05.7", {"L9", "L13"})
     for lf, kind, lb, ln in res57:
